@@ -115,7 +115,9 @@ func (vm *VM) GetLocals(locals []Object) []Object {
 // Abort aborts the VM execution. It is safe to call this method from another
 // goroutine.
 func (vm *VM) Abort() {
+	verifSync("Abort.enter")
 	vm.pool.abort()
+	verifSync("Abort.between")
 	vm.abort.Store(1)
 }
 
@@ -127,6 +129,7 @@ func (vm *VM) Aborted() bool {
 
 // Run runs VM and executes the instructions until the OpReturn Opcode or Abort call.
 func (vm *VM) Run(globals Object, args ...Object) (Object, error) {
+	verifSync("Run.enter")
 	vm.mu.Lock()
 	defer vm.mu.Unlock()
 
@@ -135,7 +138,9 @@ func (vm *VM) Run(globals Object, args ...Object) (Object, error) {
 	}
 
 	vm.err = nil
+	verifSync("Run.beforeReset")
 	vm.abort.Store(0)
+	verifSync("Run.afterReset")
 	vm.initGlobals(globals)
 	vm.initLocals(args)
 	vm.initCurrentFrame()
@@ -183,8 +188,10 @@ func (vm *VM) run() (rerun bool) {
 }
 
 func (vm *VM) loop() {
+	verifSync("loop.enter")
 VMLoop:
 	for vm.abort.Load() == 0 {
+		verifSync("loop.body")
 		vm.ip++
 		verifTrace(vm)
 		switch vm.curInsts[vm.ip] {
@@ -1613,9 +1620,11 @@ func (inv *Invoker) Invoke(args ...Object) (Object, error) {
 	if inv.child == nil {
 		inv.acquire(false)
 	}
+	verifSync("Invoke.beforeCheck")
 	if inv.child.Aborted() {
 		return Undefined, ErrVMAborted
 	}
+	verifSync("Invoke.afterCheck")
 	if inv.isCompiled {
 		return inv.child.Run(inv.vm.globals, args...)
 	}
@@ -1663,8 +1672,10 @@ func (v *vmPool) acquire(cf *CompiledFunction, usePool bool) *VM {
 }
 
 func (v *vmPool) _acquire(vm *VM, cf *CompiledFunction) *VM {
+	verifSync("_acquire.outside")
 	v.mu.Lock()
 	defer v.mu.Unlock()
+	verifSync("_acquire.inside")
 
 	vm.bytecode.FileSet = v.root.bytecode.FileSet
 	vm.bytecode.Constants = v.root.bytecode.Constants
@@ -1690,9 +1701,12 @@ func (v *vmPool) release(vm *VM) {
 }
 
 func (v *vmPool) _release(vm *VM) {
+	verifSync("_release.outside")
 	v.mu.Lock()
+	verifSync("_release.inside")
 	delete(v.vms, vm)
 	v.mu.Unlock()
+	verifSync("_release.after")
 
 	bc := vm.bytecode
 	*bc = Bytecode{}
